@@ -1,6 +1,6 @@
 (* Correspondence checker for whole public calls on both samplers (raw-tape replay). *)
 From Coq Require Import List QArith ZArith NArith Bool Arith.
-From QmcV Require Import Model.Prog Model.Sse Model.Ham Model.Diagonal Model.Nav Model.Cluster Model.Loop
+From QmcV Require Import Model.Prog Model.Sse Model.Ham Model.Diagonal Model.Nav Model.Cluster Model.ClusterValid Model.Loop
      Model.Steps Check.Common.
 Import ListNotations.
 Local Open Scope nat_scope.
@@ -35,7 +35,9 @@ Definition finish (r : res (option (slots * state * nat))) (o_sl : slots) (o_st 
                (* the configuration the model (= the implementation) ends in is a consistent periodic
                   world line: evaluated in Coq for the updates whose preservation is not a theorem
                   (directed loop), redundant for the others *)
-               && wf o_st o_sl)
+               && wf o_st o_sl
+               (* the premise of the loop / cluster world-line theorems on this configuration *)
+               && ops_wellformed (length o_st) o_sl)
   | RDone None _ => VFail
   | RIndet => VIndet
   | RBad _ => VFail
